@@ -298,3 +298,161 @@ Section Pixel2.
       apply (fvn_loop ncol nrow disp valid).
   Qed.
 End Pixel2.
+
+(* ---------------------------------------------------------------- argsort *)
+
+Lemma insert_map : forall {A B} (f : A -> B) (ltA : A -> A -> bool) (ltB : B -> B -> bool),
+  (forall a b, ltB (f a) (f b) = ltA a b) ->
+  forall x l, map f (insert ltA x l) = insert ltB (f x) (map f l).
+Proof.
+  intros A B f ltA ltB H x l. induction l as [|h t IH]; [reflexivity|].
+  cbn [insert map]. rewrite H. destruct (ltA x h); cbn [map]; [reflexivity | rewrite IH; reflexivity].
+Qed.
+
+Lemma isort_map : forall {A B} (f : A -> B) (ltA : A -> A -> bool) (ltB : B -> B -> bool),
+  (forall a b, ltB (f a) (f b) = ltA a b) ->
+  forall l, map f (isort ltA l) = isort ltB (map f l).
+Proof.
+  intros A B f ltA ltB H l. unfold isort.
+  change (@nil B) with (map f (@nil A)). generalize (@nil A) as acc.
+  induction l as [|x t IH]; intro acc; [reflexivity|].
+  cbn [fold_left map]. rewrite IH. rewrite (insert_map f ltA ltB H). reflexivity.
+Qed.
+
+Lemma insert_ext : forall {A} (lt1 lt2 : A -> A -> bool), (forall a b, lt1 a b = lt2 a b) ->
+  forall x l, insert lt1 x l = insert lt2 x l.
+Proof.
+  intros A lt1 lt2 H x l. induction l as [|h t IH]; [reflexivity|]. cbn [insert]. rewrite H, IH. reflexivity.
+Qed.
+
+Lemma isort_ext : forall {A} (lt1 lt2 : A -> A -> bool), (forall a b, lt1 a b = lt2 a b) ->
+  forall l, isort lt1 l = isort lt2 l.
+Proof.
+  intros A lt1 lt2 H l. unfold isort. generalize (@nil A) as acc.
+  induction l as [|x t IH]; intro acc; [reflexivity|]. cbn [fold_left]. rewrite (insert_ext lt1 lt2 H). apply IH.
+Qed.
+
+Lemma insert_In : forall {A} (lt : A -> A -> bool) x l y, In y (insert lt x l) -> y = x \/ In y l.
+Proof.
+  intros A lt x l y. induction l as [|h t IH]; cbn [insert]; intro H.
+  - destruct H as [<-|[]]. left. reflexivity.
+  - destruct (lt x h).
+    + destruct H as [<-|H]; [left; reflexivity | right; exact H].
+    + destruct H as [<-|H]; [right; left; reflexivity|]. destruct (IH H) as [->|H']; [left; reflexivity | right; right; exact H'].
+Qed.
+
+Lemma isort_In : forall {A} (lt : A -> A -> bool) l y, In y (isort lt l) -> In y l.
+Proof.
+  intros A lt l y. unfold isort.
+  assert (G : forall acc, In y (fold_left (fun acc x => insert lt x acc) l acc) -> In y l \/ In y acc).
+  { induction l as [|x t IH]; intros acc H; [right; exact H|]. cbn [fold_left] in H.
+    destruct (IH _ H) as [H1|H1]; [left; right; exact H1|].
+    destruct (insert_In lt x acc y H1) as [->|H2]; [left; left; reflexivity | right; exact H2]. }
+  intro H. destruct (G [] H) as [H1|[]]. exact H1.
+Qed.
+
+Lemma combine_map_r : forall {A B C} (f : B -> C) (l : list A) (l' : list B),
+  combine l (map f l') = map (fun p => (fst p, f (snd p))) (combine l l').
+Proof. induction l as [|a l IH]; intros [|b l']; cbn; [reflexivity..|]. rewrite IH. reflexivity. Qed.
+
+Lemma map_snd_combine : forall {A B} (l : list A) (l' : list B), length l = length l' -> map snd (combine l l') = l'.
+Proof.
+  induction l as [|a l IH]; intros [|b l'] H; cbn in *; try reflexivity; try discriminate.
+  rewrite IH by lia. reflexivity.
+Qed.
+
+Lemma combine_zrange_nth : forall {A} (d : A) (l : list A) a p, In p (combine (zrange a (Z.of_nat (length l))) l) ->
+  a <= fst p /\ nth (Z.to_nat (fst p - a)) l d = snd p.
+Proof.
+  intros A d. induction l as [|x t IH]; intros a p H.
+  - rewrite zrange_nil in H by (cbn; lia). destruct H.
+  - cbn [length] in H. rewrite zrange_S in H. cbn [combine In] in H. destruct H as [<-|H].
+    + cbn [fst snd]. rewrite Z.sub_diag. split; [lia | reflexivity].
+    + destruct (IH _ _ H) as [H1 H2]. split; [lia|].
+      replace (Z.to_nat (fst p - a)) with (S (Z.to_nat (fst p - (a + 1)))) by lia. exact H2.
+Qed.
+
+(* sorting the indices by |value| (NaN last) and reading the values in that order = sorting the values *)
+Lemma argsort_abs_values : forall l : list (option Q),
+  map (py_nth None l) (argsort (map fabs l)) = isort lt_abs_nanlast l.
+Proof.
+  intro l. unfold argsort. rewrite map_length, combine_map_r.
+  rewrite <- (isort_map (fun p : Z * option Q => (fst p, fabs (snd p)))
+                        (fun p q => lt_nanlast (fabs (snd p)) (fabs (snd q)))) by reflexivity.
+  rewrite !map_map. cbn [fst].
+  rewrite (map_ext_in _ snd).
+  - rewrite (isort_map snd _ (fun a b => lt_nanlast (fabs a) (fabs b))) by reflexivity.
+    rewrite map_snd_combine.
+    + apply isort_ext. intros [a|] [b|]; reflexivity.
+    + rewrite py_range_zrange, zrange_length. lia.
+  - intros p Hp. apply isort_In in Hp. rewrite py_range_zrange, Z.sub_0_r in Hp.
+    destruct (combine_zrange_nth None l 0 p Hp) as [H1 H2].
+    rewrite py_nth_nonneg by lia. rewrite Z.sub_0_r in H2. exact H2.
+Qed.
+
+Lemma argsort_length : forall l : list (option Q), length (argsort l) = length l.
+Proof.
+  intro l. unfold argsort. rewrite map_length.
+  rewrite <- (map_length snd), (isort_map snd _ (fun a b => lt_nanlast a b)) by reflexivity.
+  rewrite map_snd_combine by (rewrite py_range_zrange, zrange_length; lia).
+  unfold isort. assert (G : forall (acc : list (option Q)), length (fold_left (fun acc x => insert lt_nanlast x acc) l acc) = (length l + length acc)%nat).
+  { induction l as [|x t IH]; intro acc; [reflexivity|]. cbn [fold_left length]. rewrite IH.
+    assert (L : forall a, length (insert lt_nanlast x a) = S (length a)).
+    { induction a as [|h a IHa]; [reflexivity|]. cbn [insert]. destruct (lt_nanlast x h); cbn [length]; [reflexivity | rewrite IHa; reflexivity]. }
+    rewrite L. unfold fl in *. lia. }
+  rewrite G. cbn. unfold fl in *. lia.
+Qed.
+
+Lemma second_of_argsort : forall l : list (option Q), (2 <= length l)%nat ->
+  py_nth None l (py_nth 0 (argsort (map fabs l)) 1) = second_lowest_abs l.
+Proof.
+  intros l H. unfold second_lowest_abs. rewrite <- argsort_abs_values.
+  rewrite (py_nth_nonneg 0 _ 1) by lia. change (Z.to_nat 1) with 1%nat.
+  rewrite (nth_indep _ None (py_nth None l 0)) by (rewrite map_length, argsort_length, map_length; unfold fl in *; lia).
+  symmetry. apply map_nth.
+Qed.
+
+Lemma map_flat_map_map : forall {A B C D} (f : C -> D) (g : A -> B -> C) (r : list B) (l : list A),
+  map f (flat_map (fun i => map (g i) r) l) = flat_map (fun i => map (fun j => f (g i j)) r) l.
+Proof.
+  intros. induction l as [|a l IH]; [reflexivity|]. cbn [flat_map]. rewrite map_app, map_map, IH. reflexivity.
+Qed.
+
+Lemma fvn_length : forall ncol nrow disp valid row col, length (find_valid_neighbors ncol nrow disp valid row col) = 8%nat.
+Proof. intros. unfold find_valid_neighbors. rewrite map_length. reflexivity. Qed.
+
+(* ---------------------------------------------------------------- sgm *)
+
+Section Pixel3.
+  Variables ncol nrow : Z.
+  Variable disp : Z -> Z -> option Q.
+  Variable valid : Z -> Z -> Z.
+  Variables col row : Z.
+  Hypothesis Hcol : 0 <= col < ncol.
+  Hypothesis Hrow : 0 <= row < nrow.
+
+  Lemma gen_occ_sgm_eq : G.occ_sgm_pixel ncol nrow disp valid col row = occ_sgm_pixel true ncol nrow disp valid col row.
+  Proof.
+    unfold G.occ_sgm_pixel, occ_sgm_pixel. cbv zeta. unfold fl, fnan. konst.
+    rewrite (rd2_in ncol nrow valid col row), (rd2_in ncol nrow disp col row) by lia.
+    fold (has (valid col row) MSK_OCCLUSION).
+    destruct (has (valid col row) MSK_OCCLUSION); [|reflexivity].
+    change G.occ_sgm_pixel_dirs with dirs8. rewrite gen_fvn_eq.
+    rewrite !second_of_argsort by (rewrite fvn_length; lia).
+    cbn [andb].
+    destruct (second_lowest_abs (find_valid_neighbors ncol nrow disp valid row col)); reflexivity.
+  Qed.
+
+  Lemma gen_mis_sgm_eq : G.mis_sgm_pixel ncol nrow disp valid col row = mis_sgm_pixel true ncol nrow disp valid col row.
+  Proof.
+    unfold G.mis_sgm_pixel, mis_sgm_pixel. cbv zeta. unfold fl. konst.
+    rewrite (rd2_in ncol nrow valid col row), (rd2_in ncol nrow disp col row) by lia.
+    fold (has (valid col row) MSK_MISMATCH).
+    destruct (has (valid col row) MSK_MISMATCH); [|reflexivity].
+    rewrite slice_box_in by lia. unfold np_sum. rewrite map_flat_map_map.
+    fold (occ_neighbor ncol nrow valid col row).
+    destruct (occ_neighbor ncol nrow valid col row); [reflexivity|].
+    change G.mis_sgm_pixel_dirs with dirs8. rewrite gen_fvn_eq, np_all_isnan. cbn [andb].
+    destruct (all_nan (find_valid_neighbors ncol nrow disp valid row col)); reflexivity.
+  Qed.
+End Pixel3.
